@@ -17,6 +17,20 @@ def _mk(case, ctx):
     return gen.place(ctx.path(), case["table"], case["px"], "symm", at=case.get("at"), prior=case.get("prior", False))
 
 
+def _open(case, uri):
+    """The Cooler object that is balanced: a fresh one, or - case["stale"] - one that was constructed (and used) while the URI
+    still held ANOTHER collection on the same bins (fewer pixels), which has been replaced since."""
+    import cooler
+    if not case.get("stale"):
+        return cooler.Cooler(uri)
+    fp, grp = gen.split_uri(uri)
+    gen.make_cooler(uri, case["table"], gen.prior_px(case["px"]), "symm", mode_="a" if grp != "/" else "w")
+    old = cooler.Cooler(uri)
+    len(old.pixels()), old.info, old.shape, old.bins()[:]
+    gen.make_cooler(uri, case["table"], case["px"], "symm", mode_="a" if grp != "/" else "w")
+    return old
+
+
 def _kwargs(o, chunk):
     kw = dict(cis_only=o["mode"] == "cis", trans_only=o["mode"] == "trans", ignore_diags=o["diags"] if o["diags"] else False,
               mad_max=5 if o["mad"] else 0, min_nnz=o["min_nnz"], min_count=o["min_count"],
@@ -54,7 +68,7 @@ def bl_balance(case, ctx):
     path = _mk(case, ctx)
     fp, grp = gen.split_uri(path)
     o = case["o"]
-    clr = cooler.Cooler(path)
+    clr = _open(case, path)
     stored_same = True
     decoy_touched = False
     with warnings.catch_warnings():
@@ -66,6 +80,8 @@ def bl_balance(case, ctx):
                     "--min-nnz", str(o["min_nnz"]), "--min-count", str(o["min_count"]), "--max-iters", "120", "--force"]
             if case["chunk"]:
                 args += ["--chunksize", str(case["chunk"])]
+            if case.get("nproc"):
+                args += ["--nproc", str(case["nproc"])]          # (the command's default is 8 worker processes)
             if o["mode"] == "cis":
                 args.append("--cis-only")
             if o["mode"] == "trans":
@@ -154,7 +170,7 @@ def bl_pipeline(case, ctx):
     from cooler._balance import _init, _marginalize
     from cooler.parallel import split
     path = _mk(case, ctx)
-    clr = cooler.Cooler(path)
+    clr = _open(case, path)
     n = len(case["table"])
     rm = RecordingMap(case["map"], case["seed"])
     if case["default_spans"]:
@@ -178,13 +194,34 @@ def bl_pipeline(case, ctx):
 def bl_schedules(case, ctx):
     import cooler
     path = _mk(case, ctx)
-    clr = cooler.Cooler(path)
+    clr = _open(case, path)
     o = case["o"]
     nnz = len(case["px"])
     runs = []
     pool = None
     try:
         for chunk, kind in case["runs"]:
+            if kind.startswith("cli."):
+                # the command line with that many worker processes: the stored weights are what is compared
+                import h5py
+                from click.testing import CliRunner
+                from cooler.cli import cli
+                args = ["balance", path, "--force", "--nproc", kind[4:], "--ignore-diags", str(o["diags"]),
+                        "--mad-max", str(5 if o["mad"] else 0), "--min-nnz", str(o["min_nnz"]), "--min-count", str(o["min_count"]),
+                        "--max-iters", "120", "--tol", "1e-5", "--convergence-policy", "store_final"]
+                args += ["--chunksize", str(chunk)] if chunk else []
+                args += ["--cis-only"] if o["mode"] == "cis" else ["--trans-only"] if o["mode"] == "trans" else []
+                res = CliRunner().invoke(cli, args)
+                if res.exit_code != 0:
+                    raise res.exception if isinstance(res.exception, Exception) else RuntimeError(res.output[-300:])
+                fp, grp = gen.split_uri(path)
+                with h5py.File(fp, "r") as f:
+                    bias = f[grp]["bins/weight"][:]
+                    conv = f[grp]["bins/weight"].attrs["converged"]
+                runs.append({"chunk": chunk, "map": kind, "nan": [bool(x) for x in np.isnan(bias)],
+                             "q": [-1 if np.isnan(x) else min(1 << 30, int(round(float(x) * (1 << 20)))) for x in bias],
+                             "converged": [bool(x) for x in np.atleast_1d(conv)], "keysets": []})
+                continue
             if kind.startswith("pool") and pool is None:
                 import multiprocess as mp
                 pool = mp.Pool(case.get("workers", 2))
